@@ -102,6 +102,14 @@ type c22Case struct {
 	Saved      []uint64 `json:"saved_heights,omitempty"`
 	GenesisIn  bool     `json:"genesis_inside_window"`
 	MinInitial int64    `json:"min_timestamp_initial"`
+	// Kind: random | boundary (sync targets at oldestLocal.ts + window -1/0/+1 while the peers are silent)
+	// | pruned (peers hold nothing below PrunedBelow; the minimum is moved past already fetched blocks)
+	Kind         string  `json:"kind"`
+	Silent       bool    `json:"silent_faults,omitempty"`         // the faulty requests are only silent/slow ones (boundary)
+	EdgeDeltas   []int64 `json:"forward_ts_minus_edge,omitempty"` // per forward block: ts - (reference block ts + window)
+	PrunedBelow  int     `json:"pruned_below,omitempty"`          // while pruned, peers have no block lower than this height
+	PrunedRounds int     `json:"pruned_rounds,omitempty"`         // requests below PrunedBelow that fail before an archival peer appears
+	FwdAtPruned  []int   `json:"forward_at_pruned_failure,omitempty"`
 }
 
 // c22Run is the live state of one scenario (store, peers, model).
@@ -110,26 +118,32 @@ type c22Run struct {
 	rng   *rand.Rand
 	chain []*c22Blk // true chain 0..len-1 (beyond Target = blocks that arrive from consensus during the sync)
 
-	mu         sync.Mutex
-	store      map[ids.ID]*c22Blk
-	saved      []*c22Blk
-	served     map[ids.ID]bool // forged items ever put on the wire
-	forgedIt   []c9Item
-	reqs       int
-	prevHeight uint64
-	havePrev   bool
-	minNow     int64
-	fwdNext    int
-	fwdDone    bool
-	latest     *c22Blk
-	behaviours map[string]int
-	viol       chan [2]string
-	syncer     *vw.Syncer[c9Item, *c22Blk]
-	handler    *vw.BlockFetcherHandler[*c22Blk]
-	oldest     *c22Blk
-	cancel     context.CancelFunc
-	stopped    bool // set once the scenario has been judged: the peers go silent and the witness is frozen
-	inflight   sync.WaitGroup
+	mu           sync.Mutex
+	store        map[ids.ID]*c22Blk
+	saved        []*c22Blk
+	served       map[ids.ID]bool // forged items ever put on the wire
+	forgedIt     []c9Item
+	reqs         int
+	prevHeight   uint64
+	havePrev     bool
+	minNow       int64
+	fwdNext      int
+	fwdDone      bool
+	latest       *c22Blk
+	behaviours   map[string]int
+	viol         chan [2]string
+	syncer       *vw.Syncer[c9Item, *c22Blk]
+	handler      *vw.BlockFetcherHandler[*c22Blk]
+	pruned       *vw.BlockFetcherHandler[*c22Blk] // serving side of peers that pruned everything below PrunedBelow
+	archival     bool                             // an archival peer has appeared: requests are served from the whole chain
+	prunedFails  int
+	fwdPNext     int
+	afterCovered int // requests issued although the recorded ancestry already reached past the current minimum
+	edgeSeen     map[int64]int
+	oldest       *c22Blk
+	cancel       context.CancelFunc
+	stopped      bool // set once the scenario has been judged: the peers go silent and the witness is frozen
+	inflight     sync.WaitGroup
 }
 
 // chain index seen by the TimeValidityWindow
@@ -152,10 +166,13 @@ func (s *c22Run) SaveHistorical(b *c22Blk) error {
 }
 
 // retriever of the serving side (a correct peer holds the whole true chain)
-type c22Retriever struct{ chain []*c22Blk }
+type c22Retriever struct {
+	chain  []*c22Blk
+	lowest uint64 // blocks below this height have been pruned
+}
 
 func (r c22Retriever) GetBlockByHeight(_ context.Context, h uint64) (*c22Blk, error) {
-	if h >= uint64(len(r.chain)) {
+	if h >= uint64(len(r.chain)) || h < r.lowest {
 		return nil, database.ErrNotFound
 	}
 	return r.chain[h], nil
@@ -174,6 +191,14 @@ func (p c22Sampler) Sample(context.Context, int) []ids.NodeID {
 	return []ids.NodeID{{byte(1 + s.rng.IntN(5))}}
 }
 
+// lastKnownLocked is the oldest ancestor recorded so far (the oldest local block when nothing was fetched yet).
+func (s *c22Run) lastKnownLocked() *c22Blk {
+	if len(s.saved) > 0 {
+		return s.saved[len(s.saved)-1]
+	}
+	return s.oldest
+}
+
 func (s *c22Run) flag(key, detail string) {
 	select {
 	case s.viol <- [2]string{key, detail}:
@@ -183,8 +208,12 @@ func (s *c22Run) flag(key, detail string) {
 
 // correct answers come from the real handler (request and response go through their canoto encoding)
 func (s *c22Run) correct(ctx context.Context, height uint64, minTS int64) ([][]byte, error) {
+	return s.correctFrom(ctx, s.handler, height, minTS)
+}
+
+func (s *c22Run) correctFrom(ctx context.Context, h *vw.BlockFetcherHandler[*c22Blk], height uint64, minTS int64) ([][]byte, error) {
 	req := &vw.BlockFetchRequest{BlockHeight: height, MinTimestamp: minTS}
-	out, appErr := s.handler.AppRequest(ctx, ids.EmptyNodeID, time.Time{}, req.MarshalCanoto())
+	out, appErr := h.AppRequest(ctx, ids.EmptyNodeID, time.Time{}, req.MarshalCanoto())
 	if appErr != nil {
 		return nil, appErr
 	}
@@ -233,24 +262,64 @@ func (s *c22Run) FetchBlocksFromPeer(ctx context.Context, _ ids.NodeID, r *vw.Bl
 		return nil, errors.New("no such block")
 	}
 	s.prevHeight, s.havePrev = r.BlockHeight, true
-	bound := s.c.Faulty + int(s.oldest.h) + 2
+	// requests that honest peers cannot serve because they pruned the block do not count as served rounds
+	bound := s.c.Faulty + int(s.oldest.h) + 2 + s.prunedFails
 	if n > bound {
 		s.mu.Unlock()
-		s.flag("C22/no-progress", fmt.Sprintf("request #%d: correct peers have answered every request since #%d but the backfill of %d blocks is not done", n, s.c.Faulty, s.oldest.h))
+		s.flag("C22/no-progress", fmt.Sprintf("request #%d: correct peers have answered every request since #%d (%d of them for blocks they pruned) but the backfill of %d blocks is not done", n, s.c.Faulty, s.prunedFails, s.oldest.h))
 		return nil, errors.New("gone")
+	}
+	// bounded progress once the needed ancestry has been served: the blocks recorded so far (a subset of what the
+	// client accepted) already reach back past the current minimum, so nothing more is needed from any peer
+	if cov := s.lastKnownLocked(); !s.fwdDone && cov.h > 0 && cov.ts < s.minNow {
+		s.afterCovered++
+		if s.afterCovered > 2 {
+			s.c.Requests = append(s.c.Requests, fmt.Sprintf("#%d height=%d <-- request #%d after the window was covered", n, r.BlockHeight, s.afterCovered))
+			s.mu.Unlock()
+			s.flag("C22/not-done-after-window-covered", fmt.Sprintf("request #%d asks for height %d: it is the %d. request issued although the recorded ancestry already ends at %s, older than the current minimum timestamp %d; peers served everything the window needs but the backfill does not complete", n, r.BlockHeight, s.afterCovered, cov, s.minNow))
+			return nil, errors.New("gone")
+		}
 	}
 	// consensus may move the sync target between two requests
 	var fwd []*c22Blk
-	for s.fwdNext < len(s.c.Forward) && s.c.Forward[s.fwdNext] <= n {
-		s.fwdNext++
+	nextFwd := func() {
 		if nb := int(s.latest.h) + 1; nb < len(s.chain) {
 			fwd = append(fwd, s.chain[nb])
 			s.latest = s.chain[nb]
 		}
 	}
+	for s.fwdNext < len(s.c.Forward) && s.c.Forward[s.fwdNext] <= n {
+		s.fwdNext++
+		nextFwd()
+	}
+	// peers that pruned everything below PrunedBelow cannot serve this request (until an archival peer appears)
+	hnd := s.handler
+	prunedFail := false
+	if s.c.PrunedBelow > 0 && !s.archival {
+		hnd = s.pruned
+		if r.BlockHeight < uint64(s.c.PrunedBelow) {
+			prunedFail = true
+			s.prunedFails++
+			for s.fwdPNext < len(s.c.FwdAtPruned) && s.c.FwdAtPruned[s.fwdPNext] <= s.prunedFails {
+				s.fwdPNext++
+				nextFwd()
+			}
+			if s.prunedFails >= s.c.PrunedRounds {
+				s.archival = true // from the next request on
+			}
+		}
+	}
+	correct := func(ctx context.Context, height uint64, minTS int64) ([][]byte, error) {
+		return s.correctFrom(ctx, hnd, height, minTS)
+	}
 	faulty := n < s.c.Faulty
 	mode := "correct"
-	if faulty {
+	switch {
+	case prunedFail:
+		mode = "pruned"
+	case faulty && s.c.Silent:
+		mode = []string{"error", "error", "error", "empty", "empty", "unparsable", "slow", "slow", "timeout"}[s.rng.IntN(9)]
+	case faulty:
 		mode = []string{"correct", "partial", "partial", "truncated", "reordered", "forged-first", "forged-later", "unparsable", "empty", "error", "slow", "timeout", "wrong-height", "beyond-minimum", "duplicate"}[s.rng.IntN(15)]
 	}
 	s.behaviours[mode]++
@@ -266,6 +335,11 @@ func (s *c22Run) FetchBlocksFromPeer(ctx context.Context, _ ids.NodeID, r *vw.Bl
 		if nb.ts-s.oldest.ts > s.c.W {
 			s.fwdDone = true
 		}
+		ref := s.oldest // boundary: the forward criterion's edge; pruned: the edge of the lowest block the peers hold
+		if s.c.PrunedBelow > 0 {
+			ref = s.chain[s.c.PrunedBelow]
+		}
+		s.edgeSeen[nb.ts-ref.ts-s.c.W]++
 		s.mu.Unlock()
 		if err := s.syncer.UpdateSyncTarget(ctx, nb); err != nil {
 			s.flag("C22/syncer-error", "UpdateSyncTarget: "+err.Error())
@@ -279,8 +353,14 @@ func (s *c22Run) FetchBlocksFromPeer(ctx context.Context, _ ids.NodeID, r *vw.Bl
 			return nil, errors.New("peer failed")
 		}
 	}
+	if prunedFail {
+		if pick%3 == 0 {
+			return &vw.BlockFetchResponse{}, nil
+		}
+		return nil, errors.New("no blocks found: pruned")
+	}
 
-	blocks, err := s.correct(ctx, r.BlockHeight, r.MinTimestamp)
+	blocks, err := correct(ctx, r.BlockHeight, r.MinTimestamp)
 	switch mode {
 	case "correct":
 	case "partial":
@@ -304,7 +384,7 @@ func (s *c22Run) FetchBlocksFromPeer(ctx context.Context, _ ids.NodeID, r *vw.Bl
 				blocks[0], blocks[len(blocks)-1] = blocks[len(blocks)-1], blocks[0]
 			}
 		} else if r.BlockHeight > 0 { // a single block: answer with its parent instead
-			blocks, err = s.correct(ctx, r.BlockHeight-1, r.MinTimestamp)
+			blocks, err = correct(ctx, r.BlockHeight-1, r.MinTimestamp)
 		}
 	case "forged-first", "forged-later":
 		if len(blocks) > 0 {
@@ -337,14 +417,14 @@ func (s *c22Run) FetchBlocksFromPeer(ctx context.Context, _ ids.NodeID, r *vw.Bl
 	case "wrong-height":
 		d := uint64(1 + pick%3)
 		if pick%2 == 0 && r.BlockHeight >= d {
-			blocks, err = s.correct(ctx, r.BlockHeight-d, r.MinTimestamp)
+			blocks, err = correct(ctx, r.BlockHeight-d, r.MinTimestamp)
 		} else {
-			blocks, err = s.correct(ctx, r.BlockHeight+d, r.MinTimestamp)
+			blocks, err = correct(ctx, r.BlockHeight+d, r.MinTimestamp)
 		}
 	case "beyond-minimum": // a peer that ignores the requested minimum and serves the whole history
-		blocks, err = s.correct(ctx, r.BlockHeight, math.MinInt64)
+		blocks, err = correct(ctx, r.BlockHeight, math.MinInt64)
 		if r.BlockHeight > 0 && len(blocks) > 0 && pick%2 == 0 { // ... including genesis
-			if g, gerr := s.correct(ctx, 0, math.MinInt64); gerr == nil && uint64(len(blocks)) == r.BlockHeight {
+			if g, gerr := correct(ctx, 0, math.MinInt64); gerr == nil && uint64(len(blocks)) == r.BlockHeight {
 				blocks = append(append([][]byte(nil), blocks...), g...)
 			}
 		}
@@ -362,6 +442,123 @@ func (s *c22Run) FetchBlocksFromPeer(ctx context.Context, _ ids.NodeID, r *vw.Bl
 func c22Gen(seed [2]uint64) (*c22Case, *rand.Rand) {
 	rng := rand.New(rand.NewPCG(seed[0], seed[1]))
 	c := &c22Case{Seed: seed}
+	switch k := rng.IntN(100); {
+	case k < 64:
+		c22GenRandom(c, rng)
+	case k < 83:
+		c22GenBoundary(c, rng)
+	default:
+		c22GenPruned(c, rng)
+	}
+	c.MinInitial = max(0, c.TS[c.Target]-c.W)
+	c.GenesisIn = c.TS[0] >= c.MinInitial
+	return c, rng
+}
+
+// c22GenBoundary: the local blocks L..T do not cover the window (the block below L - after 0..3 ancestors that
+// share L's timestamp - is the first one older than every minimum used), the peers are silent or slow for the first
+// requests, and meanwhile consensus delivers sync targets whose timestamps are L.ts + window - 1 / + 0 / + 1: only
+// a target MORE than one window newer than L lets the blocks the node has reach back past the window.
+func c22GenBoundary(c *c22Case, rng *rand.Rand) {
+	c.Kind, c.Silent = "boundary", true
+	c.W = []int64{1000, 5000, 60000}[rng.IntN(3)]
+	ts := int64(10 + rng.IntN(50))
+	if rng.IntN(2) == 0 {
+		ts = 1_700_000_000_000
+	}
+	for k := rng.IntN(4); k > 0; k-- { // blocks older than the boundary block
+		c.TS = append(c.TS, ts)
+		ts += rng.Int64N(c.W/2 + 1)
+	}
+	c.TS = append(c.TS, ts) // the boundary block (genesis when nothing is older)
+	tL := ts + []int64{1, 1, 2, c.W / 3}[rng.IntN(4)]
+	for k := rng.IntN(4); k > 0; k-- { // ancestors of L with L's timestamp
+		c.TS = append(c.TS, tL)
+	}
+	c.TS = append(c.TS, tL) // L, the oldest local block
+	c.Local = rng.IntN(4)
+	t := tL
+	for i := 0; i < c.Local; i++ {
+		switch rng.IntN(3) {
+		case 0:
+		case 1:
+			t++
+		default:
+			t += rng.Int64N(c.W / 4)
+		}
+		t = min(t, tL+c.W-2)
+		c.TS = append(c.TS, t)
+	}
+	c.Target = len(c.TS) - 1
+	var deltas []int64
+	if rng.IntN(3) == 0 { // an earlier target well inside the window
+		deltas = append(deltas, t+rng.Int64N(tL+c.W-1-t)-tL-c.W)
+	}
+	deltas = append(deltas, [][]int64{{0}, {0}, {-1, 0}, {-1, 0, 1}, {0, 1}, {1}, {-1}, {0, 0}, {-1, 1}}[rng.IntN(9)]...)
+	c.EdgeDeltas = deltas
+	at := rng.IntN(2)
+	for i, d := range deltas {
+		c.TS = append(c.TS, tL+c.W+d)
+		if i > 0 && rng.IntN(6) > 0 {
+			at += 1 + rng.IntN(2) // usually one target per request: each is judged on its own
+		}
+		c.Forward = append(c.Forward, at)
+	}
+	c.Faulty = max(0, at-1+rng.IntN(4))
+}
+
+// c22GenPruned: honest peers hold the chain only from height P up. The node fetches L-1..P, every request for P-1
+// fails, and consensus then moves the sync target so that the minimum lands on P.ts (P is ON the edge: more is
+// needed, an archival peer appears later) or beyond it (P is past the window: everything needed was served).
+func c22GenPruned(c *c22Case, rng *rand.Rand) {
+	c.Kind = "pruned"
+	c.W = []int64{1000, 5000, 60000}[rng.IntN(3)]
+	ts := int64(10 + rng.IntN(50))
+	if rng.IntN(2) == 0 {
+		ts = 1_700_000_000_000
+	}
+	c.PrunedBelow = 1 + rng.IntN(4)
+	for h := 0; h < c.PrunedBelow; h++ {
+		c.TS = append(c.TS, ts)
+		if h < c.PrunedBelow-1 || rng.IntN(3) > 0 { // P-1 sometimes shares P's timestamp
+			ts += 1 + rng.Int64N(c.W/2)
+		}
+	}
+	tP := ts
+	c.TS = append(c.TS, tP)
+	nFetch := 1 + rng.IntN(5) // heights P..L-1
+	c.Local = rng.IntN(4)
+	cnt := nFetch + c.Local
+	for i := 0; i < cnt; i++ { // P+1..T, all within one window of P: at Start, P is not past the window
+		ts += 1 + rng.Int64N((c.W-1)/int64(cnt))
+		c.TS = append(c.TS, ts)
+	}
+	c.Target = len(c.TS) - 1
+	var deltas []int64
+	if rng.IntN(3) == 0 {
+		deltas = append(deltas, ts+rng.Int64N(tP+c.W-ts)-tP-c.W) // minimum still at or below ... P.ts - 1
+	}
+	d := []int64{0, 0, 1, 1, 1, 2, 1 + c.W/4}[rng.IntN(7)]
+	deltas = append(deltas, d)
+	if rng.IntN(4) == 0 {
+		deltas = append(deltas, d+1+rng.Int64N(5))
+	}
+	c.EdgeDeltas = deltas
+	at := 1 + rng.IntN(3)
+	for i, d := range deltas {
+		c.TS = append(c.TS, tP+c.W+d)
+		if i > 0 && rng.IntN(2) == 0 {
+			at++
+		}
+		c.FwdAtPruned = append(c.FwdAtPruned, at)
+	}
+	// when P stays on the edge the node rightly keeps asking: an archival peer turns up a few rounds later
+	c.PrunedRounds = at + 3 + rng.IntN(2)
+	c.Faulty = rng.IntN(3)
+}
+
+func c22GenRandom(c *c22Case, rng *rand.Rand) {
+	c.Kind = "random"
 	c.W = []int64{1000, 5000, 60000}[rng.IntN(3)]
 	c.Target = 2 + rng.IntN(24)
 	nfwd := rng.IntN(4)
@@ -397,9 +594,6 @@ func c22Gen(seed [2]uint64) (*c22Case, *rand.Rand) {
 		c.Forward = append(c.Forward, rng.IntN(c.Faulty+3))
 	}
 	sortInts(c.Forward)
-	c.MinInitial = max(0, c.TS[c.Target]-c.W)
-	c.GenesisIn = c.TS[0] >= c.MinInitial
-	return c, rng
 }
 
 type c22Stats struct {
@@ -407,18 +601,24 @@ type c22Stats struct {
 	scenarios, genesisIn, immediate, requests, saved, probes, tracked int
 	forgedProbes, fwdTargets, fwdDone, endAtGenesis, endPastWindow    int
 	behaviours                                                        map[string]int
+	kinds, edge                                                       map[string]int
+	prunedFails, doneAfterMinRaised, afterCovered, sameTSFetched      int
 }
 
 // runC22 runs one scenario to completion (logical rounds; the watchdog only yields "inconclusive").
 func runC22(c *c22Case, rng *rand.Rand, st *c22Stats) (key, detail string) {
-	s := &c22Run{c: c, rng: rng, store: map[ids.ID]*c22Blk{}, served: map[ids.ID]bool{}, behaviours: map[string]int{}, viol: make(chan [2]string, 4)}
+	s := &c22Run{c: c, rng: rng, store: map[ids.ID]*c22Blk{}, served: map[ids.ID]bool{}, behaviours: map[string]int{}, viol: make(chan [2]string, 4), edgeSeen: map[int64]int{}}
 	// true chain with a few containers per block (expiries far in the future: nothing expires during the scenario)
 	parent := ids.Empty
 	itemN := 0
 	far := c.TS[len(c.TS)-1] + 3_600_000
 	for h, ts := range c.TS {
 		var items []c9Item
-		for k := rng.IntN(4); k > 0 && h > 0; k-- {
+		k := rng.IntN(4)
+		if k == 0 && c.Kind != "random" {
+			k = 1 // boundary / pruned scenarios: every ancestor carries a transaction, so a missing one is visible
+		}
+		for ; k > 0 && h > 0; k-- {
 			items = append(items, c9Item{id: c9ID('t', itemN), exp: far})
 			itemN++
 		}
@@ -433,6 +633,7 @@ func runC22(c *c22Case, rng *rand.Rand, st *c22Stats) (key, detail string) {
 		s.store[s.chain[h].id] = s.chain[h]
 	}
 	s.handler = vw.NewBlockFetcherHandler[*c22Blk](c22Retriever{chain: s.chain})
+	s.pruned = vw.NewBlockFetcherHandler[*c22Blk](c22Retriever{chain: s.chain, lowest: uint64(c.PrunedBelow)})
 	getW := func(int64) int64 { return c.W }
 	ctx, cancel := context.WithCancel(context.Background())
 	defer cancel()
@@ -510,6 +711,9 @@ func runC22(c *c22Case, rng *rand.Rand, st *c22Stats) (key, detail string) {
 	if len(saved) > 0 {
 		last = saved[len(saved)-1]
 	}
+	if !fwdDone && last.h != 0 && last.ts == minFinal {
+		return "C22/done-with-oldest-block-on-window-edge", fmt.Sprintf("syncer reported done but the oldest known ancestor %s has exactly the minimum timestamp %d of the current target %s: it sits ON the lower edge of the window, not past it - ancestors sharing that timestamp and the first older block were never fetched, recorded or tracked", last, minFinal, latest)
+	}
 	if !fwdDone && !(last.h == 0 || last.ts < minFinal) {
 		return "C22/done-before-window-covered", fmt.Sprintf("syncer reported done but the oldest known ancestor is %s, not older than the minimum timestamp %d and not genesis", last, minFinal)
 	}
@@ -570,6 +774,14 @@ func runC22(c *c22Case, rng *rand.Rand, st *c22Stats) (key, detail string) {
 	} else {
 		st.endPastWindow++
 	}
+	if !fwdDone && minFinal > c.MinInitial && len(saved) > 0 {
+		st.doneAfterMinRaised++
+	}
+	for _, b := range saved {
+		if b.ts == oldest.ts {
+			st.sameTSFetched++
+		}
+	}
 	st.mu.Unlock()
 	return "", ""
 }
@@ -585,7 +797,21 @@ func (s *c22Run) snapshot(st *c22Stats) {
 	st.mu.Lock()
 	st.requests += s.reqs
 	st.saved += len(s.saved)
-	st.fwdTargets += s.fwdNext
+	st.fwdTargets += s.fwdNext + s.fwdPNext
+	st.prunedFails += s.prunedFails
+	st.afterCovered += s.afterCovered
+	if s.c.Kind != "random" {
+		for d, k := range s.edgeSeen {
+			switch {
+			case d < -1:
+				st.edge[s.c.Kind+"_inside"] += k
+			case d > 1:
+				st.edge[s.c.Kind+"_beyond"] += k
+			default:
+				st.edge[fmt.Sprintf("%s_%+d", s.c.Kind, d)] += k
+			}
+		}
+	}
 	for k, v := range s.behaviours {
 		st.behaviours[k] += v
 	}
@@ -594,7 +820,7 @@ func (s *c22Run) snapshot(st *c22Stats) {
 
 func (c *c22Case) shape() string {
 	var b strings.Builder
-	fmt.Fprintf(&b, "w%d t%d l%d f%d g%v:", c.W, c.Target, c.Local, c.Faulty, c.GenesisIn)
+	fmt.Fprintf(&b, "%s w%d t%d l%d f%d g%v e%v p%d/%d/%v:", c.Kind, c.W, c.Target, c.Local, c.Faulty, c.GenesisIn, c.EdgeDeltas, c.PrunedBelow, c.PrunedRounds, c.FwdAtPruned)
 	for _, r := range c.Requests {
 		if i := strings.LastIndex(r, "-> "); i >= 0 {
 			b.WriteString(r[i+3:])
@@ -607,11 +833,12 @@ func (c *c22Case) shape() string {
 
 func TestC22(t *testing.T) {
 	r := kit.Start(t, "C22", "fault_enumeration")
-	r.Rule("scenario = true chain of 3..26 hash-identified, byte-encoded blocks (timestamp steps 0, 1, up to 2 windows; bases near 0 and realistic; windows 1/5/60 s, so genesis lies inside or outside the window), sync target with 0..target-1 ancestors already local, real Syncer + BlockFetcherClient; every request is answered by a scripted peer whose behaviour the PRNG picks for the first 0..6 requests (correct, partial, truncated bytes, reordered, forged-but-parsable first/later block, unparsable, empty, error, slow, timeout, wrong height, ignoring the minimum incl. genesis, duplicated block, no peer sampled) and by the real BlockFetcherHandler afterwards; consensus moves the sync target (UpdateSyncTarget) between chosen requests. Oracle: blocks given to SaveHistorical are exactly the true ancestors below the oldest local block, in order, none after a block older than the minimum (or genesis); done implies the oldest known ancestor is older than the current minimum or is genesis (or the forward criterion holds); IsRepeat probes of every container of the true chain and of every forged block equal the model set; requested heights never increase and never pass genesis; with correct peers the backfill is done within (blocks to fetch + 2) requests. All bounds are logical request counts. Non-trivial = at least one request was made; distinct = distinct (parameters, behaviour sequence, saved heights).")
+	r.Rule("scenario = true chain of 3..26 hash-identified, byte-encoded blocks (timestamp steps 0, 1, up to 2 windows; bases near 0 and realistic; windows 1/5/60 s, so genesis lies inside or outside the window), sync target with 0..target-1 ancestors already local, real Syncer + BlockFetcherClient; every request is answered by a scripted peer whose behaviour the PRNG picks for the first 0..6 requests (correct, partial, truncated bytes, reordered, forged-but-parsable first/later block, unparsable, empty, error, slow, timeout, wrong height, ignoring the minimum incl. genesis, duplicated block, no peer sampled) and by the real BlockFetcherHandler afterwards; consensus moves the sync target (UpdateSyncTarget) between chosen requests. Oracle: blocks given to SaveHistorical are exactly the true ancestors below the oldest local block, in order, none after a block older than the minimum (or genesis); done implies the oldest known ancestor is older than the current minimum or is genesis (or the forward criterion holds); IsRepeat probes of every container of the true chain and of every forged block equal the model set; requested heights never increase and never pass genesis; with correct peers the backfill is done within (blocks to fetch + 2) requests (requests for blocks every honest peer pruned not counted); at most 2 requests are issued once the recorded ancestry already reaches back past the current minimum. 19% of the scenarios are boundary scenarios: the local blocks L..T do not cover the window, 0..3 ancestors below L share L's timestamp and carry transactions, the first requests are only answered by silent/slow peers (error, empty, unparsable, slow, timeout) while consensus delivers sync targets with timestamps L.ts + window - 1 / + 0 / + 1 (usually one per request), then peers turn correct. 17% are pruned-peer scenarios: peers hold nothing below a height P (real handler over a pruned store: partial answers down to P, error/empty below), the node fetches L-1..P, requests for P-1 fail, and at a chosen failing request consensus moves the target so that the minimum lands on P.ts (P on the edge: an archival peer appears 3..4 failures later) or past it (nothing more is needed; peers stay pruned). All bounds are logical request counts. Non-trivial = at least one request was made; distinct = distinct (parameters, behaviour sequence, saved heights).")
 	r.Assume("containers expire far in the future, so the tracked set is exactly the union of the blocks handed to the window",
-		"the forward criterion of Syncer.accept (new target more than one window newer than the oldest local block) is accepted as completing the window, as the code documents",
+		"the forward criterion (new target MORE than one window newer than the oldest local block, i.e. that block is older than the target's minimum timestamp) is accepted as completing the window: it is the statement's 'back past the validity window' applied to the blocks the node already has; a target exactly one window newer leaves that block ON the edge and completes nothing",
+		"'completes once some peer serves the real ancestry' is judged in logical rounds: the blocks handed to SaveHistorical are a subset of what the client accepted, so once the last of them is older than the current minimum nothing more is needed; 2 further requests are tolerated, the 3rd is C22/not-done-after-window-covered. A peer that pruned a block answers with an error or an empty response",
 		"a 4 minute watchdog per scenario only ever yields inconclusive")
-	st := &c22Stats{behaviours: map[string]int{}}
+	st := &c22Stats{behaviours: map[string]int{}, kinds: map[string]int{}, edge: map[string]int{}}
 
 	judge := func(seed [2]uint64) {
 		c, rng := c22Gen(seed)
@@ -635,6 +862,7 @@ func TestC22(t *testing.T) {
 		if c.GenesisIn {
 			st.genesisIn++
 		}
+		st.kinds[c.Kind]++
 		st.mu.Unlock()
 	}
 	if rf := r.Replay(); rf != nil && len(rf.Witness) > 0 {
@@ -646,7 +874,7 @@ func TestC22(t *testing.T) {
 		}
 	}
 
-	n := r.N(2000, 80000)
+	n := r.N(3000, 90000)
 	conc := r.N(350, 500)
 	srng := r.Rand("scenarios")
 	seeds := make(chan [2]uint64)
@@ -681,5 +909,17 @@ func TestC22(t *testing.T) {
 	for k, v := range st.behaviours {
 		r.Count("peer_"+k, v)
 	}
+	for k, v := range st.kinds {
+		r.Count("scenarios_kind_"+k, v)
+	}
+	for k, v := range st.edge {
+		// sync targets by timestamp - (reference block's timestamp + window); reference = oldest local block
+		// (boundary: the forward criterion's edge) or the lowest block the peers hold (pruned)
+		r.Count("sync_targets_at_edge_"+k, v)
+	}
+	r.Count("requests_for_blocks_the_peers_pruned", st.prunedFails)
+	r.Count("backfills_done_after_the_minimum_was_raised", st.doneAfterMinRaised)
+	r.Count("requests_issued_after_the_window_was_covered", st.afterCovered)
+	r.Count("fetched_ancestors_sharing_the_oldest_local_timestamp", st.sameTSFetched)
 	r.Finish(r.N(800, 20000))
 }
